@@ -640,3 +640,44 @@ def stage_gw(ctx, profiles, stall_props=("C13", "C15", "C19"), monitor_props=Non
             ctx.sample({"profile": name, "trace_excerpt": ls[:25]}, cap=3)
         subprocess.run(["rm", "-rf", tdir])
     return rep
+
+
+# ------------------------------------------------------------------ NATS adapter stage
+
+def stage_nats(ctx, n_quick=300, n_thorough=3000):
+    """The real nats.Client over TCP against the in-process fake NATS server; observations vs the Adapter model.
+    Exactly-once and early-timeout violations are timing independent and reported at once; a wrong *kind* of
+    completion can be a timing artefact of a loaded machine and must persist over three runs."""
+    n = ctx.q(n_quick, n_thorough)
+    rep = {"runs": []}
+    persistent = None
+    for attempt in range(3):
+        cases = os.path.join(ctx.work, "nats-%d.txt" % attempt)
+        rc, out = sh([os.path.join(BUILD, "natsrun"), "-seed", str(ctx.seed + attempt), "-n", str(n), "-out", cases], timeout=600)
+        if rc != 0:
+            ctx.add_violation("natsrun failed (adapter crashed or could not connect): " + out[-800:], {"kind": "crash", "log": out[-3000:]})
+            return rep
+        rc, dout = sh([driver_exe(), "pure"], inp=open(cases).read(), timeout=600)
+        mism = [l.split("\t")[1:] for l in dout.splitlines() if l.startswith("MISMATCH")]
+        spec = [l.split("\t")[1:] for l in dout.splitlines() if l.startswith("SPECFAIL")]
+        for l in dout.splitlines():
+            f = l.split("\t")
+            if f[0] == "SUMMARY":
+                ctx.evaluations += int(f[1])
+                ctx.nontrivial += int(f[4])
+        rep["runs"].append({"requests": n, "mismatches": len(mism), "specfails": len(spec)})
+        if attempt == 0:
+            for l in open(cases).read().splitlines()[:4]:
+                ctx.sample(l)
+        for sp in spec[:1]:
+            ctx.add_violation("adapter: request with reply behaviour %s completed %s (not exactly once, or a timeout before its deadline)" % (sp[1], sp[-1]),
+                              {"kind": "nats", "behaviour": sp[1], "observed": sp[-1], "seed": ctx.seed + attempt})
+            return rep
+        kinds = set((m[0], m[1]) for m in mism)
+        persistent = kinds if persistent is None else (persistent & kinds)
+        if not persistent:
+            break
+    for fn, b in sorted(persistent or []):
+        ctx.add_violation("adapter: behaviour %s consistently completes differently from the model in three runs" % b,
+                          {"kind": "nats", "function": fn, "behaviour": b, "seed": ctx.seed})
+    return rep
